@@ -94,6 +94,8 @@ func main() {
 		runMint(*seed, *hist, *steps, out)
 	case "filetree":
 		runFiletree(*seed, *hist, *steps, out)
+	case "storage", "proofs", "payments", "plans", "forms", "collateral":
+		runStorage(profile, *seed, *hist, *steps, out)
 	case "notif":
 		runNotif(*seed, *hist, *steps, out)
 	default:
